@@ -429,6 +429,27 @@ fn read_i32_const(op: &SymOp) -> Option<i64> {
     None
 }
 
+pub fn sanitize(s: &str) -> String {
+    s.chars().map(|c| if c.is_alphanumeric() || matches!(c, ':' | '.' | '_' | '=' | '#' | '-' | '<' | '>') { c } else { '_' }).collect()
+}
+
+/// identity string of a local global from its type string and symbolic initialiser
+pub fn global_ident(ty: &str, init: &[SymOp]) -> String {
+    let mut s = format!("G:{}:", ty);
+    for op in init {
+        s.push_str(&op.name);
+        s.push_str(&hex(&op.bytes));
+        for (k, _) in &op.refs {
+            let _ = write!(s, "^{:?}", k);
+        }
+        s.push('.');
+    }
+    sanitize(&s)
+}
+pub fn mem_ident_of(desc: &str) -> String {
+    sanitize(&format!("M:{}", desc.replace("MemoryType", "").replace("page_size_log2: None", "")))
+}
+
 /// Identity of function `i`: imports by (module,name); local functions by the fingerprint
 /// `i32.const K; drop` at the start of the body, falling back to position.
 pub fn idents(m: &RawModule) -> Idents {
@@ -440,14 +461,14 @@ pub fn idents(m: &RawModule) -> Idents {
         if *n == 1 {
             s
         } else {
-            format!("{}#{}", s, n)
+            format!("{}#dup{}", s, n)
         }
     };
     for i in &m.imports {
         match i.kind.as_str() {
-            "func" => id.funcs.push(uniq(format!("I:{}.{}", i.module, i.name))),
-            "global" => id.globals.push(uniq(format!("IG:{}.{}", i.module, i.name))),
-            "memory" => id.mems.push(uniq(format!("IM:{}.{}", i.module, i.name))),
+            "func" => id.funcs.push(uniq(sanitize(&format!("I:{}.{}", i.module, i.name)))),
+            "global" => id.globals.push(uniq(sanitize(&format!("IG:{}.{}", i.module, i.name)))),
+            "memory" => id.mems.push(uniq(sanitize(&format!("IM:{}.{}", i.module, i.name)))),
             _ => {}
         }
     }
@@ -459,24 +480,10 @@ pub fn idents(m: &RawModule) -> Idents {
         }
     }
     for (ty, init) in m.globals.iter() {
-        let mut s = format!("G:{}:", ty);
-        for op in init {
-            s.push_str(&hex(&op.bytes));
-            for (k, r) in &op.refs {
-                // references inside initialisers: by identity where already known
-                let r_id = match k {
-                    RefKind::Func => id.funcs.get(*r as usize).cloned(),
-                    RefKind::Global => id.globals.get(*r as usize).cloned(),
-                    RefKind::Memory => None,
-                };
-                let _ = write!(s, "@{}", r_id.unwrap_or_else(|| format!("?{}", r)));
-            }
-            s.push(';');
-        }
-        id.globals.push(uniq(s));
+        id.globals.push(uniq(global_ident(ty, init)));
     }
     for mt in &m.memories {
-        id.mems.push(uniq(format!("M:{}", mt)));
+        id.mems.push(uniq(mem_ident_of(mt)));
     }
     id
 }
@@ -520,6 +527,12 @@ pub struct SymOpts {
 /// by identity, so the placement of entities does not matter; everything the wasm format
 /// orders (types, exports, elements, data, tables, tags, customs) is keyed by position.
 pub fn flatten(m: &RawModule, id: &Idents) -> Flat {
+    flatten_opts(m, id, false)
+}
+
+/// `by_content`: function signatures are rendered as type *content* instead of type index
+/// (used by the edit-history monitors, where added types may be de-duplicated).
+pub fn flatten_opts(m: &RawModule, id: &Idents, by_content: bool) -> Flat {
     let mut f = Flat::new();
     for (i, t) in m.types.iter().enumerate() {
         f.insert(format!("type[{}]", i), t.clone());
@@ -530,7 +543,15 @@ pub fn flatten(m: &RawModule, id: &Idents) -> Flat {
     );
     // imports in order (order is part of the format)
     for (i, imp) in m.imports.iter().enumerate() {
-        f.insert(format!("import[{}]", i), format!("{}.{} {} {}", imp.module, imp.name, imp.kind, imp.desc));
+        let desc = if imp.kind == "func" && by_content {
+            // signature content instead of the type index
+            let t: usize = imp.desc.trim_start_matches("type ").parse().unwrap_or(usize::MAX);
+            m.types.get(t).cloned().unwrap_or_else(|| imp.desc.clone())
+        } else {
+            imp.desc.clone()
+        };
+        f.insert(format!("import[{}]", sanitize(&format!("{}.{}", imp.module, imp.name))), format!("{} {}", imp.kind, desc));
+        f.insert(format!("importorder[{:04}]", i), sanitize(&format!("{}.{}", imp.module, imp.name)));
     }
     // index-space order of imported functions/globals/memories must agree with the import
     // section: recorded as a site of its own
@@ -539,7 +560,14 @@ pub fn flatten(m: &RawModule, id: &Idents) -> Flat {
     f.insert("space.memory.imports".into(), id.mems[..m.n_imp_mems as usize].join(","));
     for (pos, func) in m.funcs.iter().enumerate() {
         let me = &id.funcs[m.n_imp_funcs as usize + pos];
-        f.insert(format!("func[{}].type", me), format!("{}", func.type_idx));
+        f.insert(
+            format!("func[{}].sig", me),
+            if by_content {
+                m.types.get(func.type_idx as usize).cloned().unwrap_or_else(|| format!("<type {} out of range>", func.type_idx))
+            } else {
+                format!("type {}", func.type_idx)
+            },
+        );
         f.insert(format!("func[{}].locals", me), func.locals.join(","));
         f.insert(format!("func[{}].nops", me), format!("{}", func.ops.len()));
         for (k, op) in func.ops.iter().enumerate() {
